@@ -1391,6 +1391,14 @@ func (s *solutionImpl) isFeasible(index int, includeTemporal bool) (
 		index = previous
 	}
 
+	s.updateScores()
+
+	return nil, -1, nil
+}
+
+// updateScores evaluates the terms of the objective on the solution as it is.
+func (s *solutionImpl) updateScores() {
+	model := s.model.(*modelImpl)
 	terms := model.objective.Terms()
 	// TODO: do we always have to init the map?
 	if s.scores == nil {
@@ -1403,8 +1411,6 @@ func (s *solutionImpl) isFeasible(index int, includeTemporal bool) (
 		totalScore += score
 	}
 	s.scores[model.objective] = totalScore
-
-	return nil, -1, nil
 }
 
 func (s *solutionImpl) isStopNotFeasible(
